@@ -83,7 +83,7 @@ func walkSender(a *API, fn *ssa.Function) ([]sendPath, *Walker) {
 			return true
 		}
 		// inline the small in-package helpers between the sender and the driver seam
-		return f.Pkg == up && a.Senders[f] == "" && len(f.Blocks) <= 60
+		return fnPkg(f) == up && a.Senders[f] == "" && len(f.Blocks) <= 60
 	}
 	w.Opaque["(*uhppote.uhppote).debugf"] = true
 	args := make([]*Term, len(fn.Params))
@@ -125,6 +125,22 @@ func walkSender(a *API, fn *ssa.Function) ([]sendPath, *Walker) {
 		out = append(out, sp)
 	}
 	return out, w
+}
+
+// decodedInto: res is the value the decode call d left in the local storage it was handed as its destination,
+// and the decode reported no error on this path.
+func decodedInto(pa Path, d Event, res *Term) bool {
+	if len(d.Args) != 2 || d.Result == nil || res == nil || res.Op != "fresh" {
+		return false
+	}
+	dst := d.Args[1]
+	if dst.Op == "iface" && len(dst.Args) == 1 {
+		dst = dst.Args[0]
+	}
+	if dst.Op != "ptr" || dst.Cell == nil || dst.Cell.Sym || len(dst.Path) != 0 || dst.Cell.Val != res {
+		return false
+	}
+	return errNilness(pa, d.Result) == 1
 }
 
 func RuleFilter(r *Report, p *Program, rules aspectSet) {
@@ -192,6 +208,8 @@ func RuleFilter(r *Report, p *Program, rules aspectSet) {
 				}
 				switch {
 				case len(sp.decodes) == 1 && strings.Contains(res.String(), sp.decodes[0].Result.String()+"#0"):
+				case len(sp.decodes) == 1 && decodedInto(pa, sp.decodes[0], res):
+					// codec.Unmarshal(reply, &v) succeeded and the result is what it left in v
 				case len(sp.decodes) == 0 && isZeroTerm(res) && resp != "" && pa.State.Bools["isnil("+resp+")"]:
 				default:
 					badResult = "success without decoding an accepted reply: result " + cut(res.String(), 80) + " under [" + cut(pa.State.Describe(), 160) + "]"
@@ -473,6 +491,10 @@ func RuleF4(r *Report, p *Program) {
 			acc := bufferAccesses(pa, buf, "\x00")
 			if len(acc) > 0 && !is64 {
 				bad = "message indexed on a path where its length is not known to be 64: " + acc[0].Text
+			}
+			if len(pa.Results) == 0 {
+				bad = "a path of the decoder ends in " + pa.Outcome + ": " + cut(pa.Detail, 120)
+				continue
 			}
 			errT := pa.Results[len(pa.Results)-1]
 			en := errNilness(pa, errT)
